@@ -786,6 +786,8 @@ val conv_count : nat -> symbol -> nat * char list
 
 val conv_broken : unit -> symbol -> unit * char list
 
+val conv_fields : unit -> symbol -> unit * char list
+
 val conv_empty : unit -> symbol -> unit * char list
 
 val unhex_digit : char -> nat option
